@@ -21,7 +21,8 @@ ASSUMPTIONS = ["a primitive refusing a non-rigid matrix with ValueError is a cle
                "cached normals after a non-similarity transform are judged by C01 (freshness); here only outwardness"]
 EXPLANATION = "Lean theorems C04_* (ring identities over the exact moments) + differential run on exact matrix families"
 
-CLASSES = ["rigid", "similarity", "mirror", "aniso", "shear", "near_identity", "just_outside", "translation"]
+CLASSES = ["rigid", "similarity", "mirror", "aniso", "shear", "near_identity", "just_outside", "translation",
+           "mirror_small", "rhombic"]
 
 
 def _matrix(rng, cls):
@@ -58,6 +59,17 @@ def _matrix(rng, cls):
         A = np.eye(3) + e * np.eye(3)[[1, 2, 0]]
     elif cls == "translation":
         A = np.eye(3)
+    elif cls == "mirror_small":
+        # a reflection combined with a unit conversion: the determinant is negative but tiny (-1e-9 .. -1.25e-10)
+        A[rng.randrange(3)] *= -1
+        A = A * rng.choice([1e-3, 0.5e-3])
+        t = t * 1e-3
+    elif cls == "rhombic":
+        # columns of equal length that are not orthogonal (hexagonal / rhombohedral lattice bases): not a similarity
+        h = np.array([[1.0, 0.5, 0.0], [0.0, np.sqrt(3) / 2, 0.0], [0.0, 0.0, 1.0]])
+        if rng.random() < 0.5:
+            h = np.array([[1.0, 0.5, 0.5], [0.0, np.sqrt(3) / 2, np.sqrt(3) / 6], [0.0, 0.0, np.sqrt(2.0 / 3)]])
+        A = A @ h * rng.choice([1, 2])
     M = np.eye(4)
     M[:3, :3] = A
     M[:3, 3] = t
@@ -259,7 +271,7 @@ def oracle(c, o):
     kind, cls = c["kind"], c["cls"]
     M = np.array(c["M"])
     det = float(np.linalg.det(M[:3, :3]))
-    similar = cls in ("rigid", "similarity", "mirror", "translation")
+    similar = cls in ("rigid", "similarity", "mirror", "translation", "mirror_small")
 
     def bad(what, **kw):
         d = {"kind": kind, "cls": cls, "check": what}
@@ -305,7 +317,8 @@ def oracle(c, o):
                 return bad("center-of-mass-maps-through-M", override=bool(c["com_override"]))
             if not o["normals_outward"]:
                 return bad("normals-stay-outward", cached=c["cache"])
-            if similar and o["normals_exact"] > 1e-9:
+            if o["normals_exact"] > (1e-5 if cls == "just_outside" else 1e-9):
+                # whatever the matrix: reported normals are the normals of the moved faces
                 return bad("normals-transported", cached=c["cache"])
         if similar and cls != "near_identity":
             s = abs(det) ** (1 / 3)
@@ -339,7 +352,7 @@ def oracle(c, o):
             return bad("area-differs-from-fresh-path", cached=c["cache"])
     elif kind == "primitive":
         if o.get("refused"):
-            return None if cls in ("aniso", "shear", "just_outside", "near_identity", "mirror") else bad("rigid-matrix-refused", which=o["which"])
+            return None if cls in ("aniso", "shear", "just_outside", "near_identity", "mirror", "mirror_small", "rhombic") else bad("rigid-matrix-refused", which=o["which"])
         if cls in ("aniso", "shear"):
             return bad("non-similarity-accepted-by-primitive", which=o["which"])
         if cls in ("near_identity", "just_outside"):
